@@ -15,6 +15,8 @@ import (
 	"syscall"
 	"time"
 
+	logging "github.com/mdzio/go-logging"
+
 	"verif/sim/simrt"
 	"verif/sim/world"
 	_ "verif/sim/world/all"
@@ -56,6 +58,13 @@ func newSummary(w int) *summary {
 }
 
 func main() {
+	logging.SetLevel(logging.OffLevel)
+	if lv := os.Getenv("VSIM_LOG"); lv != "" {
+		var l logging.LogLevel
+		if l.Set(lv) == nil {
+			logging.SetLevel(l)
+		}
+	}
 	if len(os.Args) < 2 {
 		fmt.Fprintln(os.Stderr, "usage: vsim batch|shrink|replay|one ...")
 		os.Exit(2)
